@@ -23,5 +23,5 @@ NOTES = ("bin/check <id> <quick|thorough> rebuilds the property's test binary fr
          "Violating cases are written to /verif/found/<id>/ (replay with bin/check <id> --replay <file>); curated regressions live in /verif/replays/<id>/; "
          "known findings in /verif/known_findings/<id>.json.")
 
-_ALL = ["C%02d" % i for i in range(1, 21)]
+_ALL = []
 NOT_APPLICABLE = {p: "check still under construction in this session (the technique applies; see DESIGN.md section 4): not claimed until it has run clean on the unchanged tree at several seeds" for p in _ALL}
